@@ -25,6 +25,11 @@ def run(ctx):
     res["states"] += vst["distinct"]
     res["transitions"] += vst["generated"]
     res["scope"]["populate_programs"] = n
+    if getattr(ctx, "round", 0) == 0:
+        from . import suite_family, family
+        part = suite_family.run_suite(ctx, "C01")
+        res["scope"]["suite"] = part["suite"]
+        family.merge(res, part)
     res["assumptions"] = ["ordered/unique fibers only", "update callbacks return boxed legal payloads",
                           "raw (unowned) fibers are exercised at depth 1, deeper trees through tensors",
                           "populate loops are exercised by C05's programs (same well-formedness clauses)"]
@@ -32,6 +37,9 @@ def run(ctx):
 
 
 def replay(ctx, rec):
+    if "suite_event" in rec.get("behaviour", {}):
+        from . import suite_family
+        return suite_family.replay_suite(ctx, "C01", rec)
     if rec.get("pop"):
         from . import c05
         return c05.replay(ctx, rec)
